@@ -147,7 +147,7 @@ def run_fjob(args):
     n = int(o.get("allocs", 0))
     res["n"] = n
     ks = list(range(1, n + 3))
-    if len(ks) > maxk:
+    if len(ks) > maxk and not getattr(job, "all_k", False):
         rnd = random.Random(rnd_seed)
         head = ks[:maxk // 2]
         ks = head + sorted(rnd.sample(ks[maxk // 2:], maxk - len(head)))
@@ -482,12 +482,12 @@ class CallFJob:
     """one call on a value object (prepared by `prep`), with the k-th allocation failing; then a dump of the object (it must
     stay valid) and the repetition of the call"""
 
-    def __init__(self, name, prep, call):
-        self.name, self.prep, self.call = name, prep, call
+    def __init__(self, name, prep, call, kinds=7, all_k=False):
+        self.name, self.prep, self.call, self.kinds, self.all_k = name, prep, call, kinds, all_k
         self.n, self.ks = 0, []
 
     def opname(self):
-        return "%s.%s" % (self.call["op"], self.call.get("f", ""))
+        return "%s.%s" % (self.call["op"], self.call["f"]) if self.call.get("f") else self.call["op"]
 
     def base_rc(self):
         return self._rc0
@@ -495,19 +495,22 @@ class CallFJob:
     def describe(self):
         return "%s: %s" % (self.name, json.dumps(self.call, sort_keys=True)[:200])
 
-    def iteration(self, k, kinds=7):
-        c = [{"op": "reset"}] + self.prep + [dict(self.call, fail_at=k, fail_kinds=kinds)]
+    def _look(self):
+        return {"op": "value_dump", "v": self.call["v"]} if "v" in self.call else {"op": "project", "cif": "c"}
+
+    def iteration(self, k, kinds=None):
+        c = [{"op": "reset"}] + self.prep + [dict(self.call, fail_at=k, fail_kinds=self.kinds)]
         it = len(c) - 1
-        c.append({"op": "value_dump", "v": self.call["v"]})
+        c.append(self._look())
         ir = None
         if k > 0:
             c.append(dict(self.call, if_fired=1)); ir = len(c) - 1
-            c.append({"op": "value_dump", "v": self.call["v"]})
+            c.append(self._look())
         return c, it, ir
 
     def learn(self, outs, it):
         self._rc0 = outs[it].get("rc")
-        self.base = outs[it + 1].get("val")
+        self.base = outs[it + 1].get("val", outs[it + 1].get("state"))
 
     def judge(self, k, outs, it, ir):
         o = outs[it]
@@ -515,13 +518,14 @@ class CallFJob:
             return False, "", []
         site = "%s:%s" % (o.get("akind"), re.sub(r":\d+$", "", o.get("site", "") or "?"))
         rc, sym = o.get("rc"), []
-        if rc == self._rc0 and outs[it + 1].get("val") == self.base:
+        seen = lambda o_: o_.get("val", o_.get("state"))
+        if rc == self._rc0 and seen(outs[it + 1]) == self.base:
             return True, site, ["~tolerated"]
         if rc not in FAULT_RCS:
             sym.append("rc=%s" % rc)
         if ir is not None:
             r = outs[ir]
-            if r.get("rc") != self._rc0 or outs[ir + 1].get("val") != self.base:
+            if r.get("rc") != self._rc0 or seen(outs[ir + 1]) != self.base:
                 sym.append("retry: differs from the fault-free call (rc=%s)" % r.get("rc"))
         return True, site, sym
 
@@ -540,6 +544,12 @@ def call_jobs(tier):
             CallFJob("get_text", [{"op": "value_build", "v": "x", "val": {"k": "numb", "t": "1.50(3)"}}], {"op": "value_op", "v": "x", "f": "get_text"}),
             CallFJob("set_quoted of a placeholder", [{"op": "value_create", "v": "x", "kind": 4}], {"op": "value_op", "v": "x", "f": "set_quoted", "q": 1}),
             CallFJob("init_char", mk, {"op": "value_op", "v": "x", "f": "init_char", "text": "some text"})]
+    # tables large enough for their hash table to enlarge its bucket array while entries are added (around the 180th entry):
+    # every one of the library's allocations of the call is failed in turn
+    big = {"k": "table", "e": [["key%d" % i, {"k": "numb", "t": str(i)}] for i in range(200)]}
+    jobs += [CallFJob("clone of a 200-entry table", [{"op": "value_build", "v": "x", "val": big}], {"op": "value_op", "v": "x", "f": "clone", "out": "y"}, kinds=1, all_k=True),
+             CallFJob("get_value of a stored 200-entry table", [{"op": "cif_create", "cif": "c"}, {"op": "create_block", "cif": "c", "code": "b", "h": "h"}, {"op": "set_value", "cont": "h", "name": "_t", "v": big}],
+                      {"op": "get_value", "cont": "h", "name": "_t"}, kinds=1, all_k=True)]
     return jobs
 
 
@@ -559,7 +569,7 @@ def c17(tier, replay=None):
     jobs += vjobs
     covs += vcovs
     jobs += doc_jobs(tier)
-    pass  # CALLJOBS_PLACEHOLDER
+    jobs += call_jobs(tier)
     maxk = 160 if tier == "quick" else 500
     results = pmap(run_fjob, [(binary, j, maxk, SEED + i) for i, j in enumerate(jobs)])
     tot = collections.Counter()
